@@ -13,7 +13,7 @@ import re
 
 from checks import classcommon as cc
 from sim import classmodel as cm
-from sim import loader, recipes, sched, simid, simset
+from sim import loader, recipes, rexcost, sched, simid, simset
 from sim.kernel import EventLog, HarnessError, Violation, digest_of, stream
 
 PROPERTY = "C20"
@@ -27,6 +27,10 @@ NAMED_REG = ["AnyLetter", "AnyDigit", "AnyLowercaseLetter", "AnyUppercaseLetter"
              "AnyWhitespace", "AnyGreekLetter", "AnyGermanLetter"]
 NAMED_NEG = ["AnyButLetter", "AnyButDigit", "AnyButWhitespace", "AnyButWordChar", "AnyButPunctuation"]
 TOKS = ["Newline", "Space", "Tab", "Backslash", "Dollar", "Euro", "Copyright"]
+META_TEXTS = ["1999", "3.14159", "-42", "+7", "0", "255", "1/3/1996", "1/3/19", "01/03/1996", "12-31-2024", "2024/02/29", "9-9-99",
+              "john.doe@mail.example.com", "a@b.co", "http://www.example.com/x?y=1", "https://sub.domain.org", "192.168.0.1",
+              "256.1.1.1", "2001:db8::ff00:42:8329", "FFFF:0:0:0:0:0:0:1", "unpredicted", "walking", "ab", "xAby", "0x1F", "1010", "zz9",
+              "hello world", "  \t", "9", "8", "19"]
 METHODS = ["has_match", "is_exact_match", "get_matches", "get_matches_and_pos", "get_captures"]
 
 
@@ -34,9 +38,78 @@ METHODS = ["has_match", "is_exact_match", "get_matches", "get_matches_and_pos", 
 # generation
 # ---------------------------------------------------------------------------------------
 
+UNBOUNDED_Q = {"Indefinite", "OneOrMore", "AtLeast", "indefinite", "one_or_more", "at_least"}
+BOUNDED_Q = {"Optional", "Exactly", "AtMost", "AtLeastAtMost", "optional", "exactly", "at_most", "at_least_at_most"}
+META_UB = {"Text": 1, "Whitespace": 1, "NonWhitespace": 1, "Word": 1, "WordContains": 2, "WordStartsWith": 1, "WordEndsWith": 1,
+           "Numeral": 1, "Integer": 1, "PositiveInteger": 1, "NegativeInteger": 1, "UnsignedInteger": 1, "Decimal": 2,
+           "PositiveDecimal": 2, "NegativeDecimal": 2, "UnsignedDecimal": 2, "Email": 3, "HttpUrl": 3, "IPv6": 1}
+UB_LIMIT = 4
+
+
+def ambiguous(r, ub):
+    """True if the recipe contains a variable-width repetition, an alternation or a meta pattern: repeating such a pattern
+    without an upper bound can make a failing match exponential ((?:a|a)+, (?:a{,2}a{,2})+)."""
+    if not isinstance(r, list) or not r:
+        return False
+    h = r[0]
+    if h == "ref":
+        return ub[r[1]] < 0 or ub[r[1]] > 0
+    if h in ("lit", "raw", "tok", "chr", "named", "empty", "Any", "AnyFrom", "AnyButFrom", "AnyBetween", "AnyButBetween"):
+        return False
+    if h in ("new", "call"):
+        name = r[1]
+        if name in META_UB or name in UNBOUNDED_Q or name in ("Either", "either", "Date", "IPv4", "Conditional"):
+            return True
+        if name in BOUNDED_Q and name not in ("Exactly", "exactly"):
+            return True
+    return any(ambiguous(x, ub) for x in r[1:] if isinstance(x, list))
+
+
+def ub_of(r, ub):
+    v = _ub_of(r, [abs(x) for x in ub], ub)
+    if v == 0 and ambiguous(r, ub):
+        return -1                  # no unbounded repetition, but variable width / alternation inside
+    return v
+
+
+def _ub_of(r, ub, raw):
+    """Static estimate of how many unbounded repetitions a recipe strings together (nested ones count as 'too many'):
+    matching cost on a failing text grows like C(len(text), estimate), so the generator keeps it small.  This bounds the
+    *workload*, it judges nothing."""
+    if not isinstance(r, list) or not r:
+        return 0
+    h = r[0]
+    if h == "ref":
+        return ub[r[1]]
+    if h in ("lit", "raw", "tok", "chr", "named", "empty", "Any", "AnyFrom", "AnyButFrom", "AnyBetween", "AnyButBetween"):
+        return 0
+    args = [x for x in r[2:] if not isinstance(x, dict)] if h in ("new", "call", "op") else r[1:]
+    sub = [_ub_of(x, ub, raw) for x in args if isinstance(x, list)]
+    total = sum(sub)
+    if h in ("new", "call"):
+        name = r[1]
+        if name in META_UB:
+            return META_UB[name]
+        if name in UNBOUNDED_Q or (name in ("AtMost", "at_most", "AtLeastAtMost", "at_least_at_most") and None in args):
+            return 99 if (total > 0 or any(ambiguous(x, raw) for x in args if isinstance(x, list))) else 1
+        if name in BOUNDED_Q:
+            nums = [x for x in args if isinstance(x, int) and not isinstance(x, bool)]
+            return total * max([1] + nums)
+        if name in ("Enclose", "enclose", "EnclosedBy", "enclosed_by", "NotEnclosedBy", "not_enclosed_by"):
+            return total + (sub[-1] if sub else 0)
+        return total
+    if h == "op":
+        if r[1] == "*":
+            nums = [x for x in r[2:] if isinstance(x, int) and not isinstance(x, bool)]
+            return total * max([1] + nums)
+        return total
+    return total
+
+
 class Gen:
     def __init__(self, rng):
         self.rng = rng
+        self.ub = []               # unbounded-repetition estimate per pool id
         self.kinds = []            # static kind guess per pool id
         self.used = []             # pool ids that were compiled / iterated (bias)
         self.focus = None
@@ -62,12 +135,53 @@ class Gen:
             return ["AnyBetween", a, b], "class+"
         if k < 0.90:
             return ["empty"], "empty"
-        if k < 0.93:
+        if k < 0.915:
             return ["Any"], "class+"
-        if k < 0.96:
+        if k < 0.94:
             return ["new", r.choice(["WordBoundary", "NonWordBoundary"])], "assertion"
-        return r.choice([["new", "Integer", 0, 255], ["new", "IPv4"], ["new", "Word", 2, 4], ["new", "Date", "dd/mm/yyyy"],
-                         ["new", "Decimal", 0, 9, 1, 2]]), "general"
+        return self.meta_leaf(), "general"
+
+    def meta_leaf(self):
+        """A meta pattern (pregex.meta.essentials) with valid, varied parameters."""
+        r = self.rng
+        ext = {"is_extensible": True} if r.random() < 0.4 else {}
+        a = r.choice([0, 1, 5, 10, 99])
+        b = a + r.choice([0, 4, 90, 900, 5000])
+        dfmts = ["d/m/yy", "d/m/yyyy", "dd/mm/yyyy", "mm-dd-yyyy", "yyyy/mm/dd", "d-m-yy", "yy/m/d", "dd/mm/yy"]
+        k = r.randrange(16)
+        if k == 0:
+            return ["new", "Integer", a, b, dict(ext, include_sign=r.random() < 0.5)]
+        if k == 1:
+            return ["new", r.choice(["PositiveInteger", "NegativeInteger", "UnsignedInteger"]), max(a, 1), max(b, 2), ext or {"is_extensible": False}]
+        if k == 2:
+            return ["new", r.choice(["Decimal", "PositiveDecimal", "NegativeDecimal", "UnsignedDecimal"]), a, b, r.choice([0, 1, 2]),
+                    r.choice([2, 3, None]), ext or {"is_extensible": False}]
+        if k == 3:
+            n_min = r.choice([1, 1, 2])
+            return ["new", "Numeral", r.choice([2, 8, 10, 10, 16, 36]), n_min, r.choice([None, n_min, n_min + 3]), ext or {"is_extensible": False}]
+        if k == 4:
+            lo = r.choice([1, 2, 3])
+            return ["new", "Word", lo, r.choice([None, lo, lo + 3]), dict(ext, is_global=r.random() < 0.5)]
+        if k == 5:
+            return ["new", r.choice(["WordContains", "WordStartsWith", "WordEndsWith"]),
+                    r.choice(["ab", "x", ["list", "a", "ab"], ["list", "ing", "ed"], ["list", "un", "pre", "un"]]),
+                    dict(ext, is_global=r.random() < 0.5)]
+        if k in (6, 7):
+            fm = r.sample(dfmts, r.randint(1, 4))
+            if r.random() < 0.3:
+                fm.append(fm[0])
+            return ["new", "Date", ["list"] + fm if (len(fm) > 1 or r.random() < 0.5) else fm[0], ext or {"is_extensible": False}]
+        if k == 8:
+            return ["new", "Date"] + ([ext] if ext else [])
+        if k == 9:
+            return ["new", "IPv4"] + ([ext] if ext else [])
+        if k == 10:
+            return ["new", "IPv6"] + ([ext] if ext else [])
+        if k in (11, 12):
+            return ["new", "Email", dict(ext, capture_local_part=r.random() < 0.4, capture_domain=r.random() < 0.4)]
+        if k in (13, 14):
+            return ["new", "HttpUrl", dict(ext, capture_domain=r.random() < 0.5)]
+        return ["new", r.choice(["Text", "Whitespace", "NonWhitespace"]), r.random() < 0.5]
 
     def ref(self, want=None):
         """A reference to a pool object (biased to recent and to used ones), or None."""
@@ -211,6 +325,8 @@ def generate(run_seed, tier):
         if texts[tid].swapcase() != texts[tid] and wl.random() < 0.7:
             texts[tid + "s"] = texts[tid].swapcase()
     texts["t_empty"] = ""
+    texts["t_meta"] = wl.choice(META_TEXTS)
+    texts["t_meta2"] = " ".join(wl.sample([m for m in META_TEXTS if len(m) <= 12], 2))
     tids = sorted(texts)
     tasks = [[] for _ in range(ntasks)]
     hcount = 0
@@ -218,8 +334,15 @@ def generate(run_seed, tier):
     for _ in range(nbuild):
         t = wl.randrange(ntasks)
         rec, kind = g.build()
+        for _ in range(6):
+            if ub_of(rec, g.ub) <= UB_LIMIT:
+                break
+            rec, kind = g.build()
+        else:
+            rec, kind = ["lit", "a"], "lit"
         pid = len(g.kinds)
         g.kinds.append(kind)
+        g.ub.append(ub_of(rec, g.ub))
         tasks[t].append({"op": "build", "id": pid, "recipe": rec})
         while wl.random() < use_rate:
             t2 = wl.randrange(ntasks)
@@ -274,6 +397,8 @@ def _touches_classes(r):
 def api_fingerprint(obj, texts):
     """Semantic fingerprint through the public API (crosses the compiled/uncompiled switch)."""
     out = []
+    if rexcost.risky(str(obj)):
+        return ["complex pattern: matching probe skipped"]
     for tid in sorted(texts):
         t = texts[tid]
         try:
@@ -418,6 +543,10 @@ def _run(plan, inst, log, label):
                 log.add("skip", kind)
                 return
             o = pool[pid]
+            if kind in ("match", "iter_open") and rexcost.risky(str(o)):
+                stats["probes_skipped_complex"] = stats.get("probes_skipped_complex", 0) + 1
+                log.add("skip-complex", kind, pid)
+                return
             try:
                 if kind == "compile":
                     o.compile()
